@@ -568,6 +568,9 @@ type applyTarget struct {
 	H cI1  // untagged interface-typed field
 	I cN   `inject:"-"` // whatever the tag's value is, the field is tagged
 	J cT1  `json:"j" inject:"-,"`
+	K cT3  `noinject:""`                                 // other packages' tag keys, however they are spelled, do not tag for injection
+	L cS   `reinject:"x" json:"inject" doc:"see inject"` //
+	M cN   `Inject:""`
 }
 
 func buildScopes(c *injCase, chans map[string]string) ([]inject.Injector, scopeTable) {
@@ -622,6 +625,7 @@ func judgeInj(w *core.W, c *injCase) {
 		var tgt applyTarget
 		tgt.C = "untouched"
 		tgt.c04Base = c04Base{Tenant: "acme", Serial: 7}
+		tgt.L = "untouched-L"
 		if len(c.Regs)%2 == 1 {
 			// a struct pre-filled by its constructor: tagged fields are injected all the same
 			tgt.A, tgt.F = cT1{"prefilled"}, cN(-1)
@@ -675,7 +679,7 @@ func judgeInj(w *core.W, c *injCase) {
 				w.Violate("apply", c, fmt.Sprintf("%s: all tagged fields are resolvable, Apply returned %v", label, err))
 				return false
 			}
-			if tgt.C != "untouched" || tgt.d != nil || tgt.G != (cT3{}) || tgt.H != nil || tgt.c04Base != (c04Base{Tenant: "acme", Serial: 7}) || tgt.c04Opt != nil {
+			if tgt.C != "untouched" || tgt.d != nil || tgt.G != (cT3{}) || tgt.H != nil || tgt.c04Base != (c04Base{Tenant: "acme", Serial: 7}) || tgt.c04Opt != nil || tgt.K != (cT3{}) || tgt.L != "untouched-L" || tgt.M != 0 {
 				w.Violate("apply", c, label+": an untagged or unexported field was modified")
 				return false
 			}
